@@ -142,8 +142,30 @@ def zoo():
   rk = [(['a'], ['a']), (['a', 'b'], ['b', 'c', 'a']), (['c'], ['a', 'b', 'c', 'd', 'e']), (['e', 'a'], ['d', 'e']), (['b'], ['c'])]
   for kl in (None, [1, 2], [1, 2, 5]):
     z.append(_mergeable(f'TopKRetrieval-k{kl}', lambda kl=kl: rt.TopKRetrieval(k_list=kl), rk, lambda a: _norm(a.result()), as_array=False))
+  tr = [(['a'], ['a', 'b'], [0.9, 0.8]), (['c'], ['x', 'y'], [0.9, 0.3]), (['a', 'b'], ['b', 'z', 'a'], [0.7, 0.6, 0.2]),
+        (['q'], ['q'], [0.4]), (['e', 'f'], ['f', 'g'], [0.95, 0.55])]
+  z.append(_mergeable('ThresholdedRetrieval', lambda: rt.ThresholdedRetrieval(thresholds=[0.25, 0.5, 0.75]), tr,
+                      lambda a: _norm(a.result()), as_array=False))
   return z
 
 
 def snapshot(acc):
   return copy.deepcopy(acc)
+
+
+def replay_result_after_update(p):
+  """Replays a counterexample of a "the value read reflects the current counts" obligation on the real accumulator:
+  read the result, update, read again, and compare with a never-read accumulator fed the same data."""
+  w = p.get('witness') or {}
+  metric = w.get('metric') or 'precision'
+  b1 = (['a'], ['a', 'b'], [0.9, 0.8])
+  b2 = (['c'], ['x', 'y'], [0.9, 0.8])
+  def mk():
+    return rt.ThresholdedRetrieval(thresholds=[0.5], metrics=[metric])
+  read, fresh = mk(), mk()
+  read.add([b1[0]], [b1[1]], [b1[2]]); first = _norm(read.result())
+  read.add([b2[0]], [b2[1]], [b2[2]]); second = _norm(read.result())
+  fresh.add([b1[0]], [b1[1]], [b1[2]]); fresh.add([b2[0]], [b2[1]], [b2[2]]); ref = _norm(fresh.result())
+  return dict(violated=second != ref,
+              detail=f'ThresholdedRetrieval(metrics=[{metric!r}]): result() after one batch {first}; after a second batch the state that had '
+                     f'been read reports {second}, a never-read state with the same two batches {ref}')
